@@ -88,24 +88,14 @@ func Begin(ncpu int, ent io.Reader) {
 	atomic.StoreInt32(&on, 1)
 }
 
-// End stops the simulated run: every later simrt call is a pass-through, and
-// tasks that are still parked are released so that they do not stay blocked in
-// simrt itself (tasks blocked in real channel operations stay blocked; the
-// controller has already reported them).
+// End stops the simulated run: every later simrt call is a pass-through. Tasks
+// that are still parked stay parked for good (and tasks blocked in real
+// channel operations stay blocked): releasing them would let code of a
+// finished run execute, unscheduled, beside the next run. The controller has
+// already reported them; the goroutines are leaked on purpose.
 func End() {
 	atomic.StoreInt32(&on, 0)
 	atomic.StoreInt32(&tickOn, 0)
-	mu.Lock()
-	ts := append([]*Task(nil), all...)
-	mu.Unlock()
-	for _, t := range ts {
-		if t.State() == StParked {
-			select {
-			case t.wake <- struct{}{}:
-			default:
-			}
-		}
-	}
 }
 
 // SetQuantum arms the preemption counter: the n-th Tick from now parks the
